@@ -1,8 +1,9 @@
 #!/bin/sh
 # Builds the harness offline from files on disk and parses every specification.
 set -e
-cd /verif/harness
+ROOT=${VERIF_ROOT:-/verif}
+cd $ROOT/harness
 export GOFLAGS=-mod=mod GOPROXY=off GOSUMDB=off GOTOOLCHAIN=local
-mkdir -p /verif/bin /verif/out /verif/evidence
-go1.26 build -tags verif -o /verif/bin/verif ./cmd/verif
-/verif/bin/verif selftest
+mkdir -p $ROOT/bin $ROOT/out $ROOT/evidence
+go1.26 build -tags verif -o $ROOT/bin/verif ./cmd/verif
+$ROOT/bin/verif selftest
